@@ -177,13 +177,20 @@ func c04Teardown(c *Ctx, idx int, procs string) bool {
 	fg := map[int]int{}
 	bg := map[[2]int]int{}
 	var fgSeen int64
-	s.Conn.HandleFunc("TDN", func(_ *client.Conn, l *client.Line) {
+	var ending int32
+	var lateRegs int64
+	s.Conn.HandleFunc("TDN", func(cc *client.Conn, l *client.Line) {
 		ev := 0
 		fmt.Sscanf(l.Args[0], "%d", &ev)
 		mu.Lock()
 		fg[ev]++
 		mu.Unlock()
 		atomic.AddInt64(&fgSeen, 1)
+		if atomic.LoadInt32(&ending) == 1 && ev%2 == 0 {
+			// registering from inside a handler is allowed at any time - also while the connection is going down
+			cc.HandleFunc(fmt.Sprintf("TDNX%d", ev), func(_ *client.Conn, _ *client.Line) {})
+			atomic.AddInt64(&lateRegs, 1)
+		}
 		switch slow {
 		case 1:
 			for k := 0; k < 30; k++ {
@@ -218,6 +225,7 @@ func c04Teardown(c *Ctx, idx int, procs string) bool {
 	// end the connection once some of the events have been handled
 	target := int64(r.Intn(nEv))
 	waitUntil(func() bool { return atomic.LoadInt64(&fgSeen) >= target })
+	atomic.StoreInt32(&ending, 1)
 	switch cause {
 	case "close":
 		go s.Conn.Close()
@@ -227,7 +235,11 @@ func c04Teardown(c *Ctx, idx int, procs string) bool {
 		mc.SendErr(nil)
 	}
 	if !waitCh(chanOf(disc)) {
-		// (a teardown that never completes is C07's subject)
+		if ds := rig.ProveDead(WaitShort); ds.Dead && (strings.Contains(ds.Dump, "client.(*Conn).HandleFunc(") || strings.Contains(ds.Dump, "client.(*Conn).Handle(")) {
+			c.R.Violate(rig.Violation{Sig: "c04|registration-in-handler-deadlocks|" + ds.Signature, Detail: "a handler that registers another handler while the connection is being torn down never returns (and the teardown never completes): " + ds.Signature, Case: Case("teardown", idx), Witness: ds.Dump})
+			return true
+		}
+		// (any other teardown that never completes is C07's subject)
 		c.R.Inconcl(fmt.Sprintf("%s: no DISCONNECTED", Case("teardown", idx)))
 		return false
 	}
@@ -253,12 +265,88 @@ func c04Teardown(c *Ctx, idx int, procs string) bool {
 			}
 		}
 	}
+	c.R.Count("registrations_made_inside_handlers_during_teardown", atomic.LoadInt64(&lateRegs))
 	c.R.Count("teardown_rounds", 1)
 	c.R.Count("events_dispatched_around_teardown", int64(nDisp))
 	return true
 }
 
+// c04Obj is a handler of a comparable type: registering the same value twice is two registrations.
+type c04Obj struct{ n int64 }
+
+func (o *c04Obj) Handle(_ *client.Conn, _ *client.Line) { atomic.AddInt64(&o.n, 1) }
+
+// c04SameValue: one handler value (a pointer, comparable - unlike a func) registered several times, under one name in
+// different letter case, in one set or both: every registration is invoked once per event and has its own Remover.
+func c04SameValue(c *Ctx, idx int) bool {
+	r := rig.Rand(c.Seed, "C04", "samevalue", idx)
+	s := NewSession(SessionOpts{Flood: true})
+	defer s.Release()
+	o := &c04Obj{}
+	nFg, nBg := r.Intn(4), r.Intn(4)
+	if nFg+nBg < 2 {
+		nFg = 2
+	}
+	c.J.Log("CASE %s fg=%d bg=%d", Case("samevalue", idx), nFg, nBg)
+	var rems []client.Remover
+	names := []string{"dup", "DUP", "Dup"}
+	for k := 0; k < nFg; k++ {
+		rems = append(rems, s.Conn.Handle(names[k%3], o))
+	}
+	for k := 0; k < nBg; k++ {
+		rems = append(rems, s.Conn.HandleBG(names[(k+1)%3], o))
+	}
+	mc, err := s.Connect()
+	if err != nil {
+		c.R.Inconcl("connect: " + err.Error())
+		return false
+	}
+	live := nFg + nBg
+	want := int64(0)
+	for round := 0; round < 4 && live >= 0; round++ {
+		nEv := 1 + r.Intn(4)
+		for e := 0; e < nEv; e++ {
+			mc.SendLine(fmt.Sprintf(":srv DUP %d.%d", round, e))
+		}
+		want += int64(nEv * live)
+		if !s.FgMarker(mc) || !waitUntil(func() bool { return atomic.LoadInt64(&o.n) >= want }) {
+			if ds := rig.ProveDead(WaitShort); !ds.Dead {
+				c.R.Inconcl(fmt.Sprintf("%s: marker / background invocations not reached (%s)", Case("samevalue", idx), ds.Reason))
+				return false
+			}
+		}
+		time.Sleep(200 * time.Microsecond) // (an invocation too many would still be on its way)
+		if got := atomic.LoadInt64(&o.n); got != want {
+			c.R.Violate(rig.Violation{Sig: "c04|same-value-registrations", Detail: fmt.Sprintf("one handler value registered %d times in the foreground and %d times in the background set (%d registrations still live): after the events of round %d it has run %d times, want %d", nFg, nBg, live, round, got, want), Case: Case("samevalue", idx)})
+			go s.Conn.Close()
+			return true
+		}
+		if len(rems) == 0 {
+			break
+		}
+		// remove one registration: the others stay
+		k := r.Intn(len(rems))
+		if !watched(func() { rems[k].Remove() }) {
+			c.R.Inconcl(fmt.Sprintf("%s: Remove did not return", Case("samevalue", idx)))
+			return false
+		}
+		rems = append(rems[:k], rems[k+1:]...)
+		live--
+	}
+	c.R.Eval(1)
+	c.R.Count("same_value_rounds", 1)
+	go s.Conn.Close()
+	return true
+}
+
 func runC04Seq(c *Ctx) {
+	for idx := 0; idx < c.Pick(30, 400); idx++ {
+		if c.Want("samevalue", idx) {
+			if !c04SameValue(c, idx) {
+				return
+			}
+		}
+	}
 	for idx := 0; idx < c.Pick(40, 600); idx++ {
 		if c.Want("teardown", idx) {
 			if !c04Teardown(c, idx, c.Arg("procs", "?")) {
